@@ -415,6 +415,45 @@ class Facts:
         go(fn, depth)
         return out
 
+    def reaching_defs(self, fn, name_node):
+        """Value expressions of the assignments to a local that may reach
+        this use of it (some path from the assignment to the use passes no
+        other assignment of the same name). For/with/unpacking definitions
+        are returned as None."""
+        name = name_node.id
+        g = self.cfg(fn)
+        try:
+            use = g.stmt_of(name_node)
+        except Exception:
+            return []
+        defs = []
+        for n in walk_no_nested(fn.node):
+            tg = []
+            if isinstance(n, ast.Assign):
+                tg = n.targets
+            elif isinstance(n, (ast.AugAssign, ast.AnnAssign)):
+                tg = [n.target]
+            elif isinstance(n, (ast.For, ast.AsyncFor)):
+                tg = [n.target]
+            for t in tg:
+                for x in ast.walk(t):
+                    if isinstance(x, ast.Name) and x.id == name:
+                        single = isinstance(n, ast.Assign) and any(
+                            isinstance(t_, ast.Name) and t_.id == name
+                            for t_ in n.targets)
+                        defs.append((n, n.value if single else None))
+        out = []
+        for st, val in defs:
+            others = [d for d, v in defs if d is not st]
+            if st is use:
+                continue
+            try:
+                if g.reaches(st, use, avoiding=others):
+                    out.append(val)
+            except Exception:
+                out.append(val)
+        return out
+
     def consts(self, fn, pred):
         """Constant nodes of fn (and nested functions) whose value satisfies
         pred."""
